@@ -26,7 +26,7 @@ TEXT = {
 }
 TEXT.update({
     "C13": dict(
-        text="Lean theorems for every sequence of send/close-source/Get/Commit/Rollback/Close steps of the Channel model: committed ++ Buffer() = "
+        text="[round 3] A Get that has to wait is a sequence of polls: an unsuccessful poll changes nothing, so the call takes effect atomically at its last poll (waiting_get_is_one_atomic_poll); a waiting Get is woken by another goroutine's Rollback with the oldest uncommitted value. The differential now leaves a Get polling on another goroutine while Rollback/send/Commit/Close run. Lean theorems for every sequence of send/close-source/Get/Commit/Rollback/Close steps of the Channel model: committed ++ Buffer() = "
              "everything taken and taken ++ queued = everything sent (lossless, ordered), replay after Rollback in original order, Commit drops exactly "
              "the delivered entries, a closed source yields no value, nothing is taken after Close, Get/Commit fail after Close and a second Close errors. "
              "Linearizability is by construction of the one-mutex model and is checked against the code, not proved. Tied by sequential differential execution.",
@@ -59,7 +59,7 @@ TEXT.update({
 })
 TEXT.update({
     "C16": dict(
-        text="Lean theorems over transition systems that interleave cancellations with the asynchronous AfterFunc callbacks in every order, for every number "
+        text="[round 3] Construction: for every pattern of cancellations landing DURING the constructor (before an input's pre-check, between its pre-check and its registration, the primary at any point) no cancellation is lost (combine_build_wired_complete), a cancelled child is returned only with a cause, never-cancellable inputs are wired like live ones; the built state is a state of the post-construction model. The differential drives this with a context type whose first Err() cancels model-chosen siblings. Lean theorems over transition systems that interleave cancellations with the asynchronous AfterFunc callbacks in every order, for every number "
              "of inputs: the chained function is never called twice and, once callbacks have run, exactly once iff either context was cancelled; the combined "
              "context is cancelled only with a cause, immediately with the primary, and at quiescence iff the primary or any other is cancelled, after which no "
              "hook stays registered; the conflated context is cancelled only by its cancel function or when all inputs are cancelled, and at quiescence is "
@@ -79,7 +79,7 @@ TEXT.update({
 })
 TEXT.update({
     "C17": dict(
-        text="Lean theorems for every reachable state of the Worker transition system (any number of holders, any interleaving of Do/done with the watcher and the "
+        text="[round 3] T1 facts over the regenerated Worker graphs (decision, close, wait for the instance and reset in one critical section; the instance goroutine needs no mutex) and a no-log hammer program with a harness-side held-when-stopped monitor. Lean theorems for every reachable state of the Worker transition system (any number of holders, any interleaving of Do/done with the watcher and the "
              "function): at most one live function instance; while any done function is outstanding an instance exists, runs and its stop channel is open; stop is closed "
              "only when no holder is outstanding; a Do cannot run while the instance is stopping and the next Do after the watcher finished starts a fresh instance; with no "
              "holder left the system is never stuck before the instance is gone, and (leads-to theorem, weak fairness, no new Do) the instance is eventually stopped and gone "
@@ -89,12 +89,12 @@ TEXT.update({
 })
 TEXT.update({
     "C20": dict(
-        text="Lean theorems for every reachable state of the LinearAttempt transition system (every count, receiver pace and cancellation instant relative to tick, "
+        text="[round 3] Closed promptly after cancellation is a leads-to theorem under weak fairness of the goroutine alone (rank 3-2-1-exit); timestamps: for EVERY sequence of raw ticker stamps the forwarded values are non-decreasing (finding F7: the runtime's stamps are not, at sub-microsecond rates — fixed in /repo). Lean theorems for every reachable state of the LinearAttempt transition system (every count, receiver pace and cancellation instant relative to tick, "
              "re-check and send): the first value is there at once; at most count values are ever put into the channel, with strictly increasing timestamps; the buffer "
              "holds at most one; everything received was sent in order; after the cancellation at most one further tick is forwarded; the channel is closed exactly when the "
              "goroutine is gone and after cancellation the goroutine always has an enabled step that needs no receiver. Tied by concurrent trace acceptance.",
         note="Trusted: Lean kernel + 3 standard axioms; ticker/select/channel semantics modelled; eventual closing is proved as absence of stuck states, not as a fairness leadsTo; tie = this run's event logs.",
-        technique="Lean 4 proof (12-clause inductive invariant over the goroutine/receiver/cancel LTS) + concurrent trace acceptance"),
+        technique="leads-to by ranking function; Lean 4 proof (12-clause inductive invariant over the goroutine/receiver/cancel LTS) + concurrent trace acceptance"),
 })
 TEXT.update({
     "C11": dict(
@@ -131,7 +131,7 @@ TEXT.update({
 })
 TEXT.update({
     "C12": dict(
-        text="Lean theorems: after Close the Buffer model rejects Put/NewConsumer/Get, Commit with nothing pending errors, contents stay, consumers are closed; the Channel model "
+        text="[round 3] Package-wide T1 facts: every cond.Wait lies on a cycle of its control-flow graph; no lock is acquired while already held (recursive RLock). closewait program: Close waits for every consumer whatever is broadcast meanwhile. Lean theorems: after Close the Buffer model rejects Put/NewConsumer/Get, Commit with nothing pending errors, contents stay, consumers are closed; the Channel model "
              "rejects Get/Commit and a second Close; and goroutine exit: along every run that is weakly fair for the goroutines' own steps (timer expiry NOT assumed) a closed "
              "Buffer's cleanup goroutine, its WaitCond watcher and the cooldown timer goroutine all exit (ranking function); the watcher of any WaitCond call exits after the "
              "call returned and its caller unlocked; Workers/Worker/LinearAttempt/ConflatedContext goroutine exit comes from C14/C17/C20/C16. Without the context select in the timer "
@@ -163,7 +163,7 @@ TEXT.update({
 })
 TEXT.update({
     "C08": dict(
-        text="Two Lean layers. Word layer: ChanCaster's packed 64-bit state and Add/Send's arithmetic transcribed on Nat mod 2^64; theorems for every count and every int delta: "
+        text="[round 3] Liveness: a Send that holds the mutex returns along every run weakly fair for its own steps and the rendezvous with receivers (rank 3T+12 / 3T+11|13 / T+(n-k)+2 / 1, read off the invariant on both sides of every step). Two Lean layers. Word layer: ChanCaster's packed 64-bit state and Add/Send's arithmetic transcribed on Nat mod 2^64; theorems for every count and every int delta: "
              "in-range Adds leave the expected word, overflow / unbalanced removal / out-of-bounds deltas panic (also while a Send is armed), the final validation accepts exactly "
              "armed words. Protocol layer: an LTS at the granularity of the atomic operations with unbounded senders and contract-following receivers over an unbuffered "
              "channel; 16-clause inductive invariant (word = packed count / armed count, sums of registrations and pending absorbs, single writer, no reader inside a Send); "
@@ -172,11 +172,11 @@ TEXT.update({
              "Send and an absorbing Add are never stuck. The clause 'every later call panics too' is false of the code: known finding F6 (Lean witness panic_not_sticky, replayed "
              "on the real code every run); proved instead: the next call after an in-bounds out-of-range Add panics.",
         note="Trusted: Lean kernel + 3 standard axioms; RWMutex/atomics/rendezvous semantics modelled; ties: regenerated CFG facts and constants, sequential word-level differential, concurrent trace acceptance with exact state words.",
-        technique="Lean 4 proof (word arithmetic by omega; 16-clause invariant over an LTS with unbounded threads) + decide over regenerated CFG + sequential differential + concurrent trace acceptance"),
+        technique="leads-to by ranking function; Lean 4 proof (word arithmetic by omega; 16-clause invariant over an LTS with unbounded threads) + decide over regenerated CFG + sequential differential + concurrent trace acceptance"),
 })
 TEXT.update({
     "C06": dict(
-        text="Lean theorems for every reachable state of the ChanPubSub protocol model (unbounded senders and contract-following subscribers, every interleaving of the "
+        text="[round 3] Whole histories: over the model wrapped with a passive observer (proved not to change behaviour) the values a subscription has received are exactly (log.drop start).take n — a contiguous run of the one global order starting at the position the order had reached when the subscription was made; armed Sends have their own position, positions follow arming order. Lean theorems for every reachable state of the ChanPubSub protocol model (unbounded senders and contract-following subscribers, every interleaving of the "
              "individual lock / atomic / channel operations, on top of the ChanCaster word model): Sends are serialised (one global order); every subscriber that is subscribed "
              "and between rounds when a Send feeds the caster is owed a copy until it receives it or withdraws; the send phase ends only when nobody is owed; ping.Send's result "
              "= number of subscribers that received the value; nobody is served twice in a round (no pong is available during the send phase); pongs published = receptions; "
@@ -185,7 +185,7 @@ TEXT.update({
              "subscribing, advanced by one per reception): no gap, no duplicate, nothing armed before the subscription. Tied by "
              "regenerated CFG facts and by concurrent trace acceptance with exact counter / caster-word values and every received value.",
         note="Trusted: Lean kernel + 3 standard axioms; mutex/rwmutex/cond/atomic/rendezvous semantics modelled; the order clauses are a step theorem (next expected position), not a separate whole-history corollary.",
-        technique="Lean 4 proof (three inductive invariants, 7 + 13 + 3 clauses with sums over unbounded subscribers, 27 actions) + decide over regenerated CFG + concurrent trace acceptance"),
+        technique="whole-history invariant over a passive observer; Lean 4 proof (three inductive invariants, 7 + 13 + 3 clauses with sums over unbounded subscribers, 27 actions) + decide over regenerated CFG + concurrent trace acceptance"),
     "C07": dict(
         text="Lean theorems for every reachable state of the same model: no call ever panics with a state-invariant violation (the caster word always equals the number of "
              "subscribers that still owe a receive-or-remove to the Send in progress, also for unsubscribes that land before the CAS, during the send phase, before ever "
